@@ -202,20 +202,32 @@ Proof. unfold wstep. simpl. destruct (has_agent w i); reflexivity. Qed.
 Lemma bm_collect_world p m : b_w (bm_collect p m) = b_w m.
 Proof. reflexivity. Qed.
 
+Lemma bm_mutate_steps m : w_steps (b_w (bm_mutate m)) = w_steps (b_w m).
+Proof. reflexivity. Qed.
+
+Lemma bm_collects_steps p c : forall m, w_steps (b_w (bm_collects p c m)) = w_steps (b_w m).
+Proof.
+  induction c as [|j IH]; intros m; simpl; [reflexivity|].
+  destruct j; [apply IH|]. rewrite bm_mutate_steps. apply IH.
+Qed.
+
+Lemma bm_collects_running p c : forall m, b_running (bm_collects p c m) = b_running m.
+Proof.
+  induction c as [|j IH]; intros m; simpl; [reflexivity|].
+  destruct j; [apply IH|]. change (b_running (bm_mutate (bm_collects p (S j) m))) with (b_running (bm_collects p (S j) m)).
+  apply IH.
+Qed.
+
 Lemma bm_step_steps p m : w_steps (b_w (bm_step p m)) = w_steps (b_w m) + 1.
 Proof.
-  unfold bm_step.
+  unfold bm_step. rewrite bm_collects_steps. cbn [b_w].
   set (w2 := inc_vals (wstep (b_w m) Step)).
   assert (w_steps w2 = w_steps (b_w m) + 1) as E2 by reflexivity.
   set (w3 := if p_churn p && (w_steps w2 mod 2 =? 1) then wstep w2 (Create 0 [(0, p_k p)]) else w2).
   assert (w_steps w3 = w_steps w2) as E3.
   { unfold w3. destruct (p_churn p && (w_steps w2 mod 2 =? 1)); [apply wstep_create_steps|reflexivity]. }
-  set (w4 := if p_churn p && (w_steps w3 mod 3 =? 0)
-             then match w_agents w3 with a :: _ => wstep w3 (Remove (a_id a)) | [] => w3 end else w3).
-  assert (w_steps w4 = w_steps w3) as E4.
-  { unfold w4. destruct (p_churn p && (w_steps w3 mod 3 =? 0)); [|reflexivity].
-    destruct (w_agents w3); [reflexivity|apply wstep_remove_steps]. }
-  destruct (p_sc p); simpl; lia.
+  destruct (p_churn p && (w_steps w3 mod 3 =? 0)); [|lia].
+  destruct (w_agents w3); [lia|]. rewrite wstep_remove_steps. lia.
 Qed.
 
 (* the loop never takes a step once steps = max_steps, and stops early only when running is False *)
@@ -240,10 +252,10 @@ Qed.
 
 Lemma bm_init_steps p : w_steps (b_w (bm_init p)) = 0.
 Proof.
-  unfold bm_init.
+  unfold bm_init. rewrite bm_collects_steps. cbn [b_w].
   assert (forall n w, w_steps (iter n (fun w0 => wstep w0 (Create 0 [(0, p_k p)])) w) = w_steps w) as Hi.
   { induction n as [|n IHn]; intros w; simpl; [reflexivity|]. rewrite IHn. apply wstep_create_steps. }
-  destruct (p_ic p); simpl; rewrite Hi; reflexivity.
+  rewrite Hi. reflexivity.
 Qed.
 
 Lemma stops_at_max_steps k max_steps :
